@@ -1911,4 +1911,322 @@ theorem layoutSegment_dom (cov ins : Bool) (c : Cls) (hdrPhoff : BitVec 64) (phe
         (fun h => nomatch h) (fun _ => hd3') hloop
       exact d1.inside rfl k s' (fun hh => hng ((hG1 k).1 hh)) hg hs' ho
 
+/-! ### `get_ordered_segments` returns a permutation -/
+
+theorem set_set_perm (a : Array Seg) (i j : Nat) (x y : Seg) (hi : a[i]? = some x) (hj : a[j]? = some y) :
+    ((a.set! i y).set! j x).Perm a := by
+  obtain ⟨hi', rfl⟩ := Array.getElem?_eq_some_iff.1 hi
+  obtain ⟨hj', rfl⟩ := Array.getElem?_eq_some_iff.1 hj
+  have : (a.set! i a[j]).set! j a[i] = a.swap i j hi' hj' := by
+    simp [Array.set!_eq_setIfInBounds, Array.setIfInBounds_def, hi', hj', Array.swap]
+  rw [this]; exact Array.swap_perm hi' hj'
+
+theorem orderFront_go_perm (n i ns : Nat) (wl out : Array Seg) (fuel : Nat)
+    (h : orderFront.go n i ns wl fuel = .ok out) : out.Perm wl := by
+  induction fuel generalizing i ns wl with
+  | zero =>
+    unfold orderFront.go at h
+    simp only [pure, Except.pure, Except.ok.injEq] at h
+    subst h; exact Array.Perm.refl _
+  | succ f ih =>
+    unfold orderFront.go at h
+    by_cases hge : i ≥ n
+    · simp only [hge, if_true, pure, Except.pure, Except.ok.injEq] at h
+      subst h; exact Array.Perm.refl _
+    · simp only [hge, if_false] at h
+      cases hi : wl[i]? with
+      | none => rw [hi] at h; simp [throw, throwThe, MonadExceptOf.throw] at h
+      | some si =>
+        rw [hi] at h
+        simp only at h
+        split at h
+        · cases hn : wl[ns]? with
+          | none => rw [hn] at h; simp [throw, throwThe, MonadExceptOf.throw] at h
+          | some sn =>
+            rw [hn] at h
+            simp only at h
+            cases hn2 : wl[if (sn.offset == 0) = true then ns + 1 else ns]? with
+            | none => rw [hn2] at h; simp [throw, throwThe, MonadExceptOf.throw] at h
+            | some sn2 =>
+              rw [hn2] at h
+              simp only at h
+              exact (ih _ _ _ h).trans (set_set_perm wl i _ si sn2 hi hn2)
+        · exact ih _ _ _ h
+
+theorem orderTopo_perm (wl res out : List Seg) (fuel : Nat) (h : orderTopo wl res fuel = .ok out) :
+    out.Perm (res.reverse ++ wl) := by
+  induction fuel generalizing wl res with
+  | zero =>
+    cases wl with
+    | nil => simp only [orderTopo, pure, Except.pure, Except.ok.injEq] at h; subst h; simp
+    | cons a b => simp [orderTopo, throw, throwThe, MonadExceptOf.throw] at h
+  | succ f ih =>
+    cases wl with
+    | nil => simp only [orderTopo, pure, Except.pure, Except.ok.injEq] at h; subst h; simp
+    | cons seg wl =>
+      unfold orderTopo at h
+      split at h
+      · refine (ih _ _ h).trans ?_
+        apply List.Perm.append_left
+        exact List.perm_append_comm
+      · refine (ih _ _ h).trans ?_
+        simp only [List.reverse_cons, List.append_assoc, List.singleton_append]
+        exact List.Perm.refl _
+
+theorem orderedSegments_perm (segs ordered : List Seg) (h : orderedSegments segs = .ok ordered) :
+    ordered.Perm segs := by
+  unfold orderedSegments at h
+  simp only [bind, Except.bind] at h
+  cases hf : orderFront segs.toArray with
+  | error e => rw [hf] at h; simp at h
+  | ok wl =>
+    rw [hf] at h
+    simp only at h
+    have h1 := orderTopo_perm _ _ _ _ h
+    simp only [List.reverse_nil, List.nil_append] at h1
+    unfold orderFront at hf
+    have h2 := orderFront_go_perm _ _ _ _ _ _ hf
+    have h3 := Array.perm_iff_toList_perm.1 h2
+    exact h1.trans h3
+
+/-! ### every member of every segment gets generated; the trace of pass 2 -/
+
+theorem wsdStep_marks (c : Cls) (g : Seg) (segStart : BitVec 64) (st st' : WsdSt) (idx : BitVec 16)
+    (hlen : st.lay.gen.length = st.lay.secs.length)
+    (h : wsdStep c g segStart st idx = .ok (some st')) : st'.lay.Gen idx.toNat := by
+  obtain ⟨sec, generated, hsec, hgen, hcases⟩ := wsdStep_cases c g segStart st st' idx h
+  have hilen : idx.toNat < st.lay.gen.length := by
+    rcases Nat.lt_or_ge idx.toNat st.lay.gen.length with h' | h'
+    · exact h'
+    · rw [List.getElem?_eq_none h'] at hgen; exact nomatch hgen
+  have hset : (st.lay.gen.set idx.toNat true)[idx.toNat]? = some true :=
+    (getElem?_set_true_iff _ _ _ hilen).2 (Or.inr rfl)
+  rcases hcases with ⟨-, rfl⟩ | ⟨-, gap, -, hrest⟩
+  · exact hset
+  · rcases hrest with ⟨hg, rfl⟩ | ⟨-, rfl⟩
+    · subst hg; exact hgen
+    · exact hset
+
+theorem wsdLoop_marks (c : Cls) (g : Seg) (segStart : BitVec 64) (l : List (BitVec 16)) (st st' : WsdSt) (lo : Nat)
+    (hinv : LayInv lo st.lay) (hnw : wsdLoopNW c g segStart l st = true)
+    (h : wsdLoop c g segStart l st = .ok (some st')) : ∀ idx ∈ l, st'.lay.Gen idx.toNat := by
+  induction l generalizing st with
+  | nil => intro idx hm; exact nomatch hm
+  | cons i rest ih =>
+    unfold wsdLoop at h
+    unfold wsdLoopNW at hnw
+    cases hs : wsdStep c g segStart st i with
+    | error e => rw [hs] at h; simp [bind, Except.bind] at h
+    | ok r =>
+      rw [hs] at h hnw
+      cases r with
+      | none => simp [bind, Except.bind, pure, Except.pure] at h
+      | some st1 =>
+        simp only [bind, Except.bind, Bool.and_eq_true] at h hnw
+        obtain ⟨i1, -⟩ := wsdStep_inv c g segStart st st1 i lo hinv hnw.1 hs
+        obtain ⟨-, s2⟩ := wsdLoop_inv c g segStart rest st1 st' lo i1 hnw.2 h
+        intro idx hm
+        rcases List.mem_cons.1 hm with rfl | hm
+        · exact s2.genMono _ (wsdStep_marks c g segStart st st1 idx hinv.len hs)
+        · exact ih st1 i1 hnw.2 h idx hm
+
+/-- one turn of the loop over the ordered segments -/
+structure SegTurn where
+  lay : Layout
+  g : Seg
+  lay' : Layout
+  g' : Seg
+
+/-- the turns of `layout_segments_and_their_sections` -/
+def segsTrace (c : Cls) (hdrPhoff : BitVec 64) (phentsize phnum : BitVec 16) : List Seg → Layout → List SegTurn
+  | [], _ => []
+  | g :: rest, lay =>
+    match layoutSegment c hdrPhoff phentsize phnum lay g with
+    | .ok (some (lay', g')) => ⟨lay, g, lay', g'⟩ :: segsTrace c hdrPhoff phentsize phnum rest lay'
+    | _ => []
+
+/-- "`P` holds at every turn" (a Bool-valued condition on the state and segment before the turn) -/
+def segsAllB (P : Layout → Seg → Bool) (c : Cls) (hdrPhoff : BitVec 64) (phentsize phnum : BitVec 16) :
+    List Seg → Layout → Bool
+  | [], _ => true
+  | g :: rest, lay =>
+    P lay g &&
+      match layoutSegment c hdrPhoff phentsize phnum lay g with
+      | .ok (some (lay', _)) => segsAllB P c hdrPhoff phentsize phnum rest lay'
+      | _ => true
+
+theorem segsAllB_trace (P : Layout → Seg → Bool) (c : Cls) (hdrPhoff : BitVec 64) (phentsize phnum : BitVec 16)
+    (l : List Seg) (lay : Layout) (h : segsAllB P c hdrPhoff phentsize phnum l lay = true) :
+    ∀ t ∈ segsTrace c hdrPhoff phentsize phnum l lay, P t.lay t.g = true := by
+  induction l generalizing lay with
+  | nil => intro t ht; exact nomatch ht
+  | cons g rest ih =>
+    unfold segsAllB at h
+    unfold segsTrace
+    cases hs : layoutSegment c hdrPhoff phentsize phnum lay g with
+    | error e => intro t ht; exact nomatch ht
+    | ok r =>
+      cases r with
+      | none => intro t ht; exact nomatch ht
+      | some r =>
+        obtain ⟨lay1, g1⟩ := r
+        rw [hs] at h
+        simp only [Bool.and_eq_true] at h
+        intro t ht
+        rcases List.mem_cons.1 ht with rfl | ht
+        · exact h.1
+        · exact ih lay1 h.2 t ht
+
+theorem segsNW_eq_allB (c : Cls) (hdrPhoff : BitVec 64) (phentsize phnum : BitVec 16) (l : List Seg) (lay : Layout) :
+    segsNW c hdrPhoff phentsize phnum l lay =
+      segsAllB (segNW c hdrPhoff phentsize phnum) c hdrPhoff phentsize phnum l lay := by
+  induction l generalizing lay with
+  | nil => rfl
+  | cons g rest ih =>
+    unfold segsNW segsAllB
+    cases hs : layoutSegment c hdrPhoff phentsize phnum lay g with
+    | error e => rfl
+    | ok r =>
+      cases r with
+      | none => rfl
+      | some r => obtain ⟨lay1, g1⟩ := r; simp only [ih]
+
+/-- Everything about the turns of pass 2 that the theorems on the final object need. -/
+theorem segsFold_trace (c : Cls) (hdrPhoff : BitVec 64) (phentsize phnum : BitVec 16) (l : List Seg)
+    (lay lay' : Layout) (done done' : List Seg) (lo : Nat)
+    (hinv : LayInv lo lay) (hnw : segsNW c hdrPhoff phentsize phnum l lay = true)
+    (h : l.foldlM (segsStep c hdrPhoff phentsize phnum) (some (lay, done)) = .ok (some (lay', done'))) :
+    (segsTrace c hdrPhoff phentsize phnum l lay).map (·.g) = l ∧
+    done' = done ++ (segsTrace c hdrPhoff phentsize phnum l lay).map (·.g') ∧
+    ∀ t ∈ segsTrace c hdrPhoff phentsize phnum l lay,
+      layoutSegment c hdrPhoff phentsize phnum t.lay t.g = .ok (some (t.lay', t.g')) ∧
+      LayInv lo t.lay ∧ LayStep lay t.lay ∧ LayStep t.lay' lay' ∧ LayInv lo t.lay' := by
+  induction l generalizing lay done with
+  | nil =>
+    simp only [List.foldlM, pure, Except.pure, Except.ok.injEq, Option.some.injEq, Prod.mk.injEq] at h
+    obtain ⟨rfl, rfl⟩ := h
+    exact ⟨rfl, by simp [segsTrace], fun t ht => nomatch ht⟩
+  | cons g rest ih =>
+    unfold segsNW at hnw
+    simp only [List.foldlM, segsStep, bind, Except.bind] at h
+    unfold segsTrace
+    cases hs : layoutSegment c hdrPhoff phentsize phnum lay g with
+    | error e => rw [hs] at h; simp at h
+    | ok r =>
+      rw [hs] at h hnw
+      cases r with
+      | none =>
+        simp only [pure, Except.pure] at h
+        rw [segsFold_none] at h; simp at h
+      | some r =>
+        obtain ⟨lay1, g1⟩ := r
+        simp only [pure, Except.pure, Bool.and_eq_true] at h hnw
+        obtain ⟨i1, s1⟩ := layoutSegment_inv c hdrPhoff phentsize phnum lay lay1 g g1 lo hinv hnw.1 hs
+        obtain ⟨i2, s2⟩ := segsFold_inv c hdrPhoff phentsize phnum rest lay1 lay' _ done' lo i1 hnw.2 h
+        obtain ⟨e1, e2, e3⟩ := ih lay1 (done ++ [g1]) i1 hnw.2 h
+        refine ⟨by simp only [List.map_cons, e1], by simp only [List.map_cons, e2, List.append_assoc, List.singleton_append], ?_⟩
+        intro t ht
+        rcases List.mem_cons.1 ht with rfl | ht
+        · exact ⟨hs, hinv, LayStep.refl _, s2, i1⟩
+        · obtain ⟨f1, f2, f3, f4, f5⟩ := e3 t ht
+          exact ⟨f1, f2, s1.trans f3, f4, f5⟩
+
+theorem layoutSegment_marks (c : Cls) (hdrPhoff : BitVec 64) (phentsize phnum : BitVec 16) (lay lay' : Layout)
+    (g g' : Seg) (lo : Nat) (hinv : LayInv lo lay) (hnw : segNW c hdrPhoff phentsize phnum lay g = true)
+    (h : layoutSegment c hdrPhoff phentsize phnum lay g = .ok (some (lay', g'))) :
+    (∀ idx ∈ g.secs, lay'.Gen idx.toNat) ∧ g'.secs = g.secs ∧ g'.index = g.index ∧ g'.vaddr = g.vaddr ∧
+      g'.stype = g.stype ∧ g'.align = g.align := by
+  obtain ⟨fg, r, st, hfg, hin, hloop, rfl, rfl⟩ := layoutSegment_parts c hdrPhoff phentsize phnum lay lay' g g' h
+  unfold segNW at hnw
+  rw [hfg] at hnw
+  simp only at hnw
+  rw [hin] at hnw
+  simp only [Bool.and_eq_true, decide_eq_true_eq] at hnw
+  have hl := segInit_lay c hdrPhoff phentsize phnum lay g fg r hin
+  have hinv1 : LayInv lo r.1 := by rw [hl]; exact ⟨hinv.len, hinv.packed.mono hnw.1.1⟩
+  obtain ⟨-, -, -, hva, hal, hse, hty, hix⟩ := segFinish_fields c g r.2.1 st
+  exact ⟨wsdLoop_marks c g r.2.1 g.secs _ st lo hinv1 hnw.2 hloop, hse, hix, hva, hty, hal⟩
+
+/-- the turns of pass 2 of a `layoutOf` result -/
+def LayoutRes.trace (o : Obj) (res : LayoutRes) : List SegTurn :=
+  segsTrace o.cls (Hdr.e_phoff o.cls o.enc res.hdr0) (Hdr.e_phentsize o.cls o.enc res.hdr0)
+    (Hdr.e_phnum o.cls o.enc res.hdr0) res.ordered (lay0Of o res.pos0)
+
+theorem lay0_inv (o : Obj) (pos0 : BitVec 64) (hn : o.secs.length < 65536)
+    (h0 : ∀ (i : Nat) (s : SecBuf), o.secs[i]? = some s → s.Occ → s.index ≠ 0) :
+    LayInv pos0.toNat (lay0Of o pos0) := by
+  refine ⟨by simp [lay0Of, Nat.mod_eq_of_lt hn], Nat.le_refl _, h0, ?_, ?_⟩
+  · intro i s _ hg; exfalso
+    simp only [Layout.Gen, lay0Of, List.getElem?_replicate] at hg
+    split at hg <;> simp at hg
+  · intro i j a b _ _ _ hg; exfalso
+    simp only [Layout.Gen, lay0Of, List.getElem?_replicate] at hg
+    split at hg <;> simp at hg
+
+/-- the facts about the turns of a successful layout -/
+theorem layoutOf_trace (o : Obj) (h : Bytes) (res : LayoutRes) (hl : layoutOf o h = .ok (some res))
+    (hnw : layoutNW o h = true) (hn : o.secs.length < 65536)
+    (h0 : ∀ (i : Nat) (s : SecBuf), o.secs[i]? = some s → s.Occ → s.index ≠ 0) :
+    (res.trace o).map (·.g) = res.ordered ∧ res.done = (res.trace o).map (·.g') ∧
+    ∀ t ∈ res.trace o,
+      layoutSegment o.cls (Hdr.e_phoff o.cls o.enc res.hdr0) (Hdr.e_phentsize o.cls o.enc res.hdr0)
+        (Hdr.e_phnum o.cls o.enc res.hdr0) t.lay t.g = .ok (some (t.lay', t.g')) ∧
+      segNW o.cls (Hdr.e_phoff o.cls o.enc res.hdr0) (Hdr.e_phentsize o.cls o.enc res.hdr0)
+        (Hdr.e_phnum o.cls o.enc res.hdr0) t.lay t.g = true ∧
+      LayInv res.pos0.toNat t.lay ∧ LayStep (lay0Of o res.pos0) t.lay ∧ LayStep t.lay' res.lay2 ∧
+      LayInv res.pos0.toNat t.lay' := by
+  unfold layoutNW at hnw
+  rw [hl] at hnw
+  simp only [Bool.and_eq_true, decide_eq_true_eq] at hnw
+  obtain ⟨⟨hnw2, -⟩, -⟩ := hnw
+  obtain ⟨-, -, -, -, hfold, -, -, -⟩ := layoutOf_parts o h res hl
+  obtain ⟨e1, e2, e3⟩ := segsFold_trace _ _ _ _ _ _ _ _ _ _ (lay0_inv o res.pos0 hn h0) hnw2 hfold
+  refine ⟨e1, by simpa [LayoutRes.trace] using e2, ?_⟩
+  intro t ht
+  obtain ⟨f1, f2, f3, f4, f5⟩ := e3 t ht
+  rw [segsNW_eq_allB] at hnw2
+  exact ⟨f1, segsAllB_trace _ _ _ _ _ _ _ hnw2 t ht, f2, f3, f4, f5⟩
+
+/-- every final segment has the member list of one of the turns -/
+theorem final_seg_turn (o : Obj) (h : Bytes) (res : LayoutRes) (hl : layoutOf o h = .ok (some res))
+    (hnw : layoutNW o h = true) (hn : o.secs.length < 65536)
+    (h0 : ∀ (i : Nat) (s : SecBuf), o.secs[i]? = some s → s.Occ → s.index ≠ 0)
+    (g' : Seg) (hg : g' ∈ res.segs) : ∃ t ∈ res.trace o, g'.secs = t.g.secs := by
+  obtain ⟨e1, e2, e3⟩ := layoutOf_trace o h res hl hnw hn h0
+  obtain ⟨-, -, -, hord, -, hsegs, -, -⟩ := layoutOf_parts o h res hl
+  rw [hsegs, List.mem_map] at hg
+  obtain ⟨g0, hg0, rfl⟩ := hg
+  cases hf : res.done.find? (fun d => d.index == g0.index) with
+  | some d =>
+    simp only [Option.getD_some]
+    have hd : d ∈ res.done := List.mem_of_find?_eq_some hf
+    rw [e2, List.mem_map] at hd
+    obtain ⟨t, ht, rfl⟩ := hd
+    obtain ⟨f1, f2, f3, -, -, -⟩ := e3 t ht
+    exact ⟨t, ht, (layoutSegment_marks _ _ _ _ _ _ _ _ _ f3 f2 f1).2.1⟩
+  | none =>
+    simp only [Option.getD_none]
+    have hp := orderedSegments_perm _ _ hord
+    have : g0 ∈ res.ordered := (hp.mem_iff).2 hg0
+    rw [← e1, List.mem_map] at this
+    obtain ⟨t, ht, rfl⟩ := this
+    exact ⟨t, ht, rfl⟩
+
+/-- **every section is placed**: it is outside all segments (pass 3) or was generated in pass 2 -/
+theorem placed_all (o : Obj) (h : Bytes) (res : LayoutRes) (hl : layoutOf o h = .ok (some res))
+    (hnw : layoutNW o h = true) (hn : o.secs.length < 65536)
+    (h0 : ∀ (i : Nat) (s : SecBuf), o.secs[i]? = some s → s.Occ → s.index ≠ 0) (k : Nat) :
+    res.lay2.Gen k ∨ withoutSegment res.segs k = true := by
+  cases hw : withoutSegment res.segs k with
+  | true => exact Or.inr rfl
+  | false =>
+    left
+    simp only [withoutSegment, Bool.not_eq_false', List.any_eq_true, beq_iff_eq] at hw
+    obtain ⟨g', hg', idx, hidx, rfl⟩ := hw
+    obtain ⟨t, ht, hsecs⟩ := final_seg_turn o h res hl hnw hn h0 g' hg'
+    obtain ⟨-, -, e3⟩ := layoutOf_trace o h res hl hnw hn h0
+    obtain ⟨f1, f2, f3, -, f5, -⟩ := e3 t ht
+    rw [hsecs] at hidx
+    exact f5.genMono _ ((layoutSegment_marks _ _ _ _ _ _ _ _ _ f3 f2 f1).1 idx hidx)
+
 end ElfioVerif
